@@ -1,6 +1,7 @@
 use super::{Lint, LintKind, Linter};
-use crate::TokenStringExt;
 use crate::Document;
+use crate::Token;
+use crate::TokenStringExt;
 
 /// Detect and warn that the sentence is too long.
 #[derive(Debug, Clone, Copy, Default)]
@@ -14,9 +15,18 @@ impl Linter for LongSentences {
             let word_count = sentence.iter_words().count();
 
             if word_count > 40 {
-                // Not every token knows where it is: the zero-width breaks some parsers emit at
-                // the end of a block carry the block's start. Cover what the tokens cover.
-                let Some(span) = sentence.span() else {
+                // The whitespace and breaks that separate the sentence from its neighbours are
+                // not part of it. (Besides, not every token knows where it is: the zero-width
+                // breaks some parsers emit at the end of a block carry the block's start.)
+                let is_gap = |t: &Token| t.kind.is_whitespace() || t.kind.is_paragraph_break();
+                let Some(first) = sentence.iter().position(|t| !is_gap(t)) else {
+                    continue;
+                };
+                let last = sentence
+                    .iter()
+                    .rposition(|t| !is_gap(t))
+                    .unwrap_or(first);
+                let Some(span) = sentence[first..=last].span() else {
                     continue;
                 };
 
